@@ -1,3 +1,4 @@
+import RedoModel.Props.C16b
 import RedoModel.SqlTxn
 import RedoModel.Generated
 /-!
